@@ -328,3 +328,174 @@ class TextModel:
         gs.Tlm = mul(translate(F(0), -gs.TL), gs.Tlm)
         gs.Tm = gs.Tlm
         gs.pen_known = gs.tlm_known
+
+
+# ==========================================================================
+# Path / painting model (ISO 32000-1 8.4.3-8.4.4, 8.5, 8.6.8) for C16
+# ==========================================================================
+CS_COMPONENTS = {"DeviceGray": 1, "DeviceRGB": 3, "DeviceCMYK": 4}
+PAINT = {  # operator -> (close first, stroke, fill, evenodd)
+    "S": (False, True, False, False), "s": (True, True, False, False),
+    "f": (False, False, True, False), "f*": (False, False, True, True),
+    "B": (False, True, True, False), "B*": (False, True, True, True),
+    "b": (True, True, True, False), "b*": (True, True, True, True),
+}
+
+
+class Shape:
+    __slots__ = ("ops", "pts", "pts_elided", "original_path", "klass", "stroke", "fill", "evenodd", "linewidth", "dash",
+                 "scolor", "ncolor", "index", "corners")
+
+    def __repr__(self) -> str:
+        return "Shape(%s %s pts=%d)" % (self.klass, "".join(self.ops), len(self.pts))
+
+
+class PathModel:
+    """Reference interpreter for path construction/painting with the graphics state that shapes carry."""
+
+    def __init__(self, colorspaces: Optional[Dict[str, int]] = None) -> None:
+        self.cs = dict(CS_COMPONENTS)
+        self.cs.update(colorspaces or {})     # resource name -> number of components
+        self.shapes: List[Shape] = []
+
+    def run(self, ops: Sequence[Op], ctm: Matrix = IDENT) -> List[Shape]:
+        gs = GState()
+        gs.ctm = ctm
+        gs.linewidth = NEVER_SET
+        gs.dash = NEVER_SET
+        stack: List[GState] = []
+        sub: List[Tuple[str, List[F]]] = []   # current path: list of (op, operands)
+        for op in ops:
+            n, a = op.name, op.args
+            if op.bad:
+                if n in ("g", "rg", "k", "sc", "scn"):
+                    gs.fill = UNKNOWN
+                elif n in ("G", "RG", "K", "SC", "SCN"):
+                    gs.stroke = UNKNOWN
+                elif n == "w":
+                    gs.linewidth = UNKNOWN
+                elif n == "d":
+                    gs.dash = UNKNOWN
+                elif n == "cs":
+                    gs.fill_cs = UNKNOWN
+                    gs.fill = UNKNOWN
+                elif n == "CS":
+                    gs.stroke_cs = UNKNOWN
+                    gs.stroke = UNKNOWN
+                continue
+            if n == "q":
+                stack.append(gs.copy())
+            elif n == "Q":
+                if stack:
+                    r = stack.pop()
+                    for s in GState.__slots__:
+                        setattr(gs, s, getattr(r, s))
+            elif n == "cm":
+                gs.ctm = mul(tuple(F(x) for x in a), gs.ctm)  # type: ignore[arg-type]
+            elif n == "w":
+                gs.linewidth = F(a[0])
+            elif n == "d":
+                gs.dash = ([F(x) for x in a[0]], F(a[1]))
+            elif n in ("g", "G"):
+                self._set(gs, n == "g", F(a[0]), "DeviceGray")
+            elif n in ("rg", "RG"):
+                self._set(gs, n == "rg", tuple(F(x) for x in a), "DeviceRGB")
+            elif n in ("k", "K"):
+                self._set(gs, n == "k", tuple(F(x) for x in a), "DeviceCMYK")
+            elif n in ("cs", "CS"):
+                name = a[0].b.decode("latin-1")
+                ncomp = self.cs[name]
+                # the colour becomes the initial colour of the new space (ISO 32000-1 8.6.8); the generator always
+                # sets a colour right afterwards, so the value is recorded as UNKNOWN rather than asserted
+                if n == "cs":
+                    gs.fill_cs, gs.fill = name, UNKNOWN
+                else:
+                    gs.stroke_cs, gs.stroke = name, UNKNOWN
+            elif n in ("sc", "scn", "SC", "SCN"):
+                val: Any = F(a[0]) if len(a) == 1 else tuple(F(x) for x in a)
+                if n in ("sc", "scn"):
+                    gs.fill = val
+                else:
+                    gs.stroke = val
+            elif n in ("m", "l", "c", "v", "y", "h", "re"):
+                sub.append((n, [F(x) for x in a]))
+            elif n in ("W", "W*"):
+                pass
+            elif n == "n":
+                sub = []
+            elif n in PAINT:
+                close, stroke, fill, evenodd = PAINT[n]
+                self._paint(gs, sub, close, stroke, fill, evenodd)
+                sub = []
+            else:
+                raise ValueError("path model has no operator %r" % n)
+        return self.shapes
+
+    @staticmethod
+    def _set(gs: GState, fill: bool, val: Any, cs: str) -> None:
+        if fill:
+            gs.fill, gs.fill_cs = val, cs
+        else:
+            gs.stroke, gs.stroke_cs = val, cs
+
+    def _paint(self, gs: GState, path: List[Tuple[str, List[F]]], close: bool, stroke: bool, fill: bool, evenodd: bool) -> None:
+        # expand re into m l l l h (ISO 32000-1 table 59)
+        ex: List[Tuple[str, List[F]]] = []
+        for n, a in path:
+            if n == "re":
+                x, y, w, h = a
+                ex += [("m", [x, y]), ("l", [x + w, y]), ("l", [x + w, y + h]), ("l", [x, y + h]), ("h", [])]
+            else:
+                ex.append((n, a))
+        if close:
+            ex.append(("h", []))
+        # split into subpaths at every m
+        subs: List[List[Tuple[str, List[F]]]] = []
+        for n, a in ex:
+            if n == "m":
+                subs.append([(n, a)])
+            elif subs:
+                subs[-1].append((n, a))
+            # construction operators before the first m are not generated
+        for sp in subs:
+            segs = [s for s in sp[1:]]
+            if not segs:
+                continue        # a subpath without a segment yields nothing
+            sh = Shape()
+            sh.ops = [n for n, _ in sp]
+            start = tuple(sp[0][1])
+            pts = []
+            for n, a in sp:
+                p = start if n == "h" else tuple(a[-2:])
+                pts.append(apply_pt(gs.ctm, p))  # type: ignore[arg-type]
+            sh.pts = pts
+            # the documented elision: a redundant closing 'l' right before 'h'
+            sh.pts_elided = None
+            if len(sp) > 3 and sh.ops[-2:] == ["l", "h"] and pts[-2] == pts[0]:
+                sh.pts_elided = pts[:-1]
+            sh.original_path = [(n, [apply_pt(gs.ctm, (a[i], a[i + 1])) for i in range(0, len(a), 2)]) for n, a in sp]
+            sh.stroke, sh.fill, sh.evenodd = stroke, fill, evenodd
+            sh.linewidth, sh.dash, sh.scolor, sh.ncolor = gs.linewidth, gs.dash, gs.stroke, gs.fill
+            sh.klass, sh.corners = self._classify(sh)
+            sh.index = len(self.shapes)
+            self.shapes.append(sh)
+
+    @staticmethod
+    def _classify(sh: Shape) -> Tuple[str, Any]:
+        ops = "".join(sh.ops)
+        pts = sh.pts
+        if sh.pts_elided is not None:
+            ops = ops[:-2] + "h"
+            pts = sh.pts_elided
+        if ops == "ml":
+            return "line", None
+        if ops == "mlh":
+            return "line|curve", None      # one segment and its closing segment: the statement does not decide
+        if ops in ("mlllh", "mllll") and pts[0] == pts[4]:
+            (x0, y0), (x1, y1), (x2, y2), (x3, y3) = pts[:4]
+            sq = (x0 == x1 and y1 == y2 and x2 == x3 and y3 == y0) or (y0 == y1 and x1 == x2 and y2 == y3 and x3 == x0)
+            if sq and x0 != x2 and y0 != y2:
+                return "rect", {(x0, y0), (x1, y1), (x2, y2), (x3, y3)}
+            if sq:
+                return "rect|curve", None  # degenerate (zero-area) rectangle: not decided
+        return "curve", None
